@@ -455,6 +455,11 @@ def run(ch, idx, tier):
         base = [P.run_sim(parset, progset, ins) for ins in instructions] if use_progs else [P.run_sim(parset)]
         baseline_digests = [digest_result(r) for r in base]
 
+    ensemble_used_before = api == "ensemble" and ch.flip("ensemble_used_before", 0.35)
+    prior_result = None
+    if ensemble_used_before:
+        prior_result = [P.run_sim(parset, progset, ins, result_name=f"earlier {i_}") for i_, ins in enumerate(instructions)] if use_progs else [P.run_sim(parset, result_name="earlier")]
+        bump("probe:ensemble_used_before")
     # ---- the call under test --------------------------------------------------------------
     results = None
     exc = None
@@ -465,6 +470,10 @@ def run(ch, idx, tier):
         else:
             outputs = [c for c in list(P.framework.comps.index)[:2]]
             ens = at.Ensemble(functools.partial(_mapping_function, outputs=outputs))
+            if ensemble_used_before:
+                # the Ensemble already holds samples of an earlier analysis: the call under test stores its own n draws
+                ens.add(prior_result)
+                ens.add(prior_result)
             ens.run_sims(P, parset, progset=progset, progset_instructions=instructions, result_names=result_names, n_samples=n, parallel=parallel)
             results = ens.samples
     except Exception as e:  # noqa
